@@ -212,8 +212,10 @@ fn prepare_one(case: &mut J, sources: &[Src], layout_rng: Option<Rng>) {
     let mut mj = Vec::new();
     for q in &qinfos {
         let ms = oracle::stanza_matches(src, q);
-        if ms.iter().any(|m| m.root.len() != 1) {
-            case["skip"] = json!("tree-sitter binds the root capture of a match to no node or to several");
+        // a quantified top-level pattern binds the root capture to several nodes: the library (and the machine) take the first;
+        // no node at all is the territory of property C05 (the run must fail, not panic) and is not judged here
+        if ms.iter().any(|m| m.root.is_empty()) {
+            case["skip"] = json!("tree-sitter binds the root capture of a match to no node");
             return;
         }
         let caps: Vec<J> = q.caps.iter().map(|(n, qn)| json!({"name": n, "q": qn})).collect();
